@@ -35,7 +35,7 @@ ASSUMPTIONS = ['credentials: token dict + role names + user_id + project_id + sy
 LEVEL_TEXT = ('Seeded sampling of (policy, token, target, options); every printed verdict is compared with the library\'s '
               'decision, and the set and order of lines with the statement. None of the suite\'s six scenarios compares with the library.')
 LEVEL_NOTE = 'trusted: the harness\'s derivation of credentials/target from the files; a real Enforcer as decision oracle'
-PLAN = {'quick': dict(shards=4, wall=60), 'thorough': dict(shards=16, wall=400)}
+PLAN = {'quick': dict(shards=4, wall=120), 'thorough': dict(shards=16, wall=400)}
 MIN = {'evaluations': 500, 'verdict_lines': 1500, 'passed_lines': 200, 'failed_lines': 200, 'system_tokens': 50,
        'requested_rule_runs': 100, 'order_name_listings': 100, 'listings_sibling_below_colon': 80, 'listings_sibling_above_colon': 80,
        'listings_empty_segment': 30, 'listings_case_only_pair': 30, 'order_name_requested': 10}
